@@ -2,6 +2,7 @@ package main
 
 import (
 	"fmt"
+	"go/token"
 	"go/types"
 	"strings"
 
@@ -149,6 +150,43 @@ func (x *fnExec) doCall(st *State, site ssa.Instruction, call *ssa.CallCommon, m
 		ens = c.OnSpawn
 	}
 	x.applyModifies(st, c, mods, pre, oldAlloc)
+	// in-place mutation of slice arguments by library functions (sort.*): the SSA value (and the cell it was
+	// loaded from) gets a fresh value; the contract sees the old value as <name>0
+	for _, mname := range c.Mutates {
+		for i, n := range names {
+			if n != mname || i >= len(args) {
+				continue
+			}
+			ai := i
+			if call.IsInvoke() {
+				ai = i - 1
+			}
+			if ai < 0 || ai >= len(call.Args) {
+				continue
+			}
+			root := call.Args[ai]
+			if mi, ok := root.(*ssa.MakeInterface); ok {
+				root = mi.X
+			}
+			if ct, ok := root.(*ssa.ChangeType); ok {
+				root = ct.X
+			}
+			oldT := x.val(st, root)
+			if !isSliceSort(oldT.Sort) {
+				fail("mutates %s of %s: argument is not a slice value", mname, c.Key)
+			}
+			nw := mkTerm(st.fresh(v, "mut_"+mname, oldT.Sort), oldT.Sort, oldT.T)
+			x.typeFacts(st, nw, true)
+			vars[mname] = nw
+			vars[mname+"0"] = oldT
+			st.vals[root] = nw
+			if ld, ok := root.(*ssa.UnOp); ok && ld.Op == token.MUL {
+				if l, ok := x.locOf(st, ld.X); ok {
+					x.writeLoc(st, l, nw)
+				}
+			}
+		}
+	}
 	if mode == "go" {
 		post := &EvalCtx{v: v, pkg: pkg, vars: vars, st: st, old: oldHeap}
 		for _, e := range ens {
@@ -233,6 +271,9 @@ func (x *fnExec) argVal(st *State, a ssa.Value) Term {
 func (x *fnExec) modSingle(m string, c *FuncContract, ctx *EvalCtx) string {
 	v := x.v
 	m = strings.TrimSpace(m)
+	if strings.HasPrefix(m, "new(") {
+		return "$none"
+	}
 	if strings.HasPrefix(m, "chan(") && strings.HasSuffix(m, ")") {
 		e, err := parseExpr(m[5 : len(m)-1])
 		if err != nil {
@@ -285,11 +326,41 @@ func (x *fnExec) applyModifies(st *State, c *FuncContract, mods []string, pre *E
 			}
 			if single == "" {
 				whole[n] = true
+			} else if single == "$none" {
+				if locs[n] == nil {
+					locs[n] = []string{}
+				}
 			} else {
 				locs[n] = append(locs[n], single)
 			}
 		}
 	}
+	// frame axioms below speak about objects allocated before the call (r < oldAlloc): state heap closedness for that
+	// bound (lazily included, only for heap symbols a query mentions)
+	needClosed := false
+	for _, n := range order {
+		if !whole[n] {
+			needClosed = true
+		}
+	}
+	if needClosed {
+		var refNames []string
+		for n := range v.heapIsRef {
+			if _, ok := v.heapSorts[n]; ok {
+				refNames = append(refNames, n)
+			}
+		}
+		sortStrings(refNames)
+		for _, n := range refNames {
+			sym := st.heapGet(v, n, v.heapSorts[n])
+			f := v.closedFormula(n, sym, oldAlloc, func(md string) string { return st.heapGet(v, md, v.heapSorts[md]) })
+			if f != "" {
+				st.asserts = append(st.asserts, ";;closed "+sym+"\n"+f)
+			}
+		}
+	}
+	// the callee may allocate: bump first so that closedness facts of the new heap versions refer to the new bound
+	x.bumpAlloc(st)
 	for _, n := range order {
 		hs := v.heapSorts[n]
 		old := st.heapGet(v, n, hs)
@@ -304,7 +375,6 @@ func (x *fnExec) applyModifies(st *State, c *FuncContract, mods []string, pre *E
 			st.assume("(forall ((r!m Int)) (=> " + and(conds...) + " " + eq(sel(nw, "r!m"), sel(old, "r!m")) + "))")
 		}
 	}
-	x.bumpAlloc(st)
 }
 
 func (x *fnExec) innerRefCtx(c *EvalCtx, base Term, field string, pkg *types.Package) string {
